@@ -298,11 +298,15 @@ def run_shared(rep, prog, cprog):
     init = {u.array: u for u in extra}
     okb = 'b' in init and init['b'].op == '=' and (init['b'].lo, init['b'].hi) == (0, 0) and init['b'].expr.equals(parse_expr('1/dt'))
     oke = 'a[0]' in init and 'c[N-1]' in init and init['a[0]'].expr.is_zero() and init['c[N-1]'].expr.is_zero() and len(extra) == 3
-    rep.ob('R-ALG', 'C compute_abc_nobc init', okb and oke, 'b initialised to 1/dt on [0,N); a[0] = c[N-1] = 0; other statements: %d' % (len(extra) - 3), shared, cf.line,
-           what='diagonal starts at 1/dt, no coupling outside the grid')
+    # (when the initialisation loop b[ii] = 1/dt is not there at all - fused into the assembly loop - the four-piece template does not
+    # apply: the function is restructured, not wrong)
+    restructured = 'b' not in init
+    rep.ob('R-ALG', 'C compute_abc_nobc init', okb and oke, 'b initialised to 1/dt on [0,N); a[0] = c[N-1] = 0; other statements: %d%s' % (len(extra) - 3, ' (initialisation loop of b not found)' if restructured else ''),
+           shared, cf.line, what='diagonal starts at 1/dt, no coupling outside the grid')
     # order: b must be initialised before the accumulation loop
     order = [type(s).__name__ for s in cf.body if not isinstance(s, CDecl)]
-    rep.ob('R-DOM', 'C compute_abc_nobc order', order == ['CAssign', 'CAssign', 'CFor', 'CFor'], 'statement kinds %s' % order, shared, cf.line, what='initialisation precedes accumulation')
+    rep.ob('R-DOM', 'C compute_abc_nobc order', order == ['CAssign', 'CAssign', 'CFor', 'CFor'], 'statement kinds %s%s' % (order, ' (initialisation loop of b not found)' if restructured else ''), shared, cf.line,
+           what='initialisation precedes accumulation')
     return ref
 
 
